@@ -1,0 +1,17 @@
+//go:build verif
+
+package shard
+
+import "github.com/semafind/semadb/diskstore"
+
+// VerifDB returns the storage handle of the shard so that a verification
+// harness can dump buckets of a live shard. Only compiled with the verif tag.
+func (s *Shard) VerifDB() diskstore.DiskStore {
+	return s.db
+}
+
+// VerifWrapDB replaces the storage handle of the shard with wrap(handle), e.g.
+// a fault injecting or pausing proxy. Only compiled with the verif tag.
+func (s *Shard) VerifWrapDB(wrap func(diskstore.DiskStore) diskstore.DiskStore) {
+	s.db = wrap(s.db)
+}
